@@ -75,6 +75,10 @@ QUERIES = [
     ("L.b.ffill()", True, 1, None, "window"),
     ("L.b.bfill()", True, 1, None, "window"),
     ("L.a.shift(2)", True, 1, None, "window"),
+    ("L.rolling(2).sum()", True, 1, None, "window"),
+    ("L.b.rolling(2, min_periods=1).mean()", True, 1, None, "window"),
+    ("L.rolling(2).max()[['c', 'a']]", True, 1, None, "window"),
+    ("(lambda r: r.a + r.c)(L.rolling(2).count())", True, 1, None, "window"),
     ("L.a + R.a", True, 2, True, "align"),
     ("L[['a', 'b']] + R[['a', 'b']]", True, 2, True, "align"),
     ("L.a + R.a", False, 2, False, "align-shuffle"),
